@@ -12,9 +12,9 @@
    polynomials and tropical centuries from B1900.0;  ecl_rot = Rz(p + Pi) . Rx(-eta) . Rz(-Pi). *)
 From Coq Require Import Reals ZArith List Bool String.
 From PyLib Require Import PyVal PyBuiltins Ideal Sphere.
-From Spec Require Import AngleSpec Precession.
+From Spec Require Import AngleSpec Precession PrecessionBack.
 From Gen Require Import M_base M_Angle M_Epoch M_Coordinates.
-From Proofs.C06 Require Import C06_angle C06_jde C06_equ C06_aux C06_orb C06_main.
+From Proofs.C06 Require Import C06_angle C06_jde C06_equ C06_aux C06_orb C06_main C06_back.
 Import ListNotations.
 Open Scope R_scope.
 
@@ -179,6 +179,35 @@ Theorem C06_orbital_zero_branch : forall j0 j1 w0 o0,
   = VTuple [ang (fst (fst o)); ang (snd (fst o)); ang (snd o)].
 Proof. exact (fun j0 j1 w0 o0 => orb_closed0 J2000 j0 j1 w0 o0 jde2000_eq). Qed.
 
+(* there and back (no proper motion).  Equatorial: EXACTLY the starting direction, for all epochs and
+   every declination -- the IAU 1976 polynomials of the reverse trip, zeta(T+t,-t), z(T+t,-t),
+   theta(T+t,-t), are the exact negatives -z(T,t), -zeta(T,t), -theta(T,t) (PrecessionBack.v), so the
+   property's 1e-9 degree is a pure rounding budget in binary64 *)
+Theorem C06_equ_there_and_back : forall j0 j1 a0 d0,
+  exists ra1 dec1 ra2 dec2,
+    f_precession_equatorial Rops (ep j0) (ep j1) (ang a0) (ang d0) (ang 0) (ang 0)
+    = VTuple [ang ra1; ang dec1] /\
+    f_precession_equatorial Rops (ep j1) (ep j0) (ang ra1) (ang dec1) (ang 0) (ang 0)
+    = VTuple [ang ra2; ang dec2] /\
+    uvec (d2r ra2) (d2r dec2) = uvec (d2r a0) (d2r d0).
+Proof. exact equ_there_and_back. Qed.
+
+(* Ecliptical, both epochs within 5 centuries of J2000: the returned direction is within a chord of
+   6e-9 (= 3.44e-7 degree) of the start, hence within 1e-6 degree (cos(1e-6 deg) <= dot product), at
+   every latitude.  Here the reverse-trip polynomials are NOT exact inverses (eta'+eta = -0.00001 t^2,
+   Pi'-Pi-p = 0.0001 t + 0.000042 T^2 t + 0.000042 T t^2 + 0.000006 t^3 arcsec); the bound is
+   2 |eta'| |Pi'-Pi-p| + |eta'+eta| (commutator of rotations about z and x; chord <= arc). *)
+Theorem C06_ecl_there_and_back : forall j0 j1 l0 b0,
+  -5 <= cen J2000 j0 <= 5 -> -5 <= cen J2000 j1 <= 5 ->
+  exists lon1 lat1 lon2 lat2,
+    f_precession_ecliptical Rops (ep j0) (ep j1) (ang l0) (ang b0) (ang 0) (ang 0)
+    = VTuple [ang lon1; ang lat1] /\
+    f_precession_ecliptical Rops (ep j1) (ep j0) (ang lon1) (ang lat1) (ang 0) (ang 0)
+    = VTuple [ang lon2; ang lat2] /\
+    chord (uvec (d2r lon2) (d2r lat2)) (uvec (d2r l0) (d2r b0)) <= 6 / 1000000000 /\
+    cos (d2r (1 / 1000000)) <= dot (uvec (d2r lon2) (d2r lat2)) (uvec (d2r l0) (d2r b0)).
+Proof. exact ecl_there_and_back. Qed.
+
 Redirect "C06_equ_closed_form.assumptions" Print Assumptions C06_equ_closed_form.
 Redirect "C06_equ_rotation.assumptions" Print Assumptions C06_equ_rotation.
 Redirect "C06_equ_identity.assumptions" Print Assumptions C06_equ_identity.
@@ -196,3 +225,5 @@ Redirect "C06_p_motion_closed_form.assumptions" Print Assumptions C06_p_motion_c
 Redirect "C06_motion_in_space_closed_form.assumptions" Print Assumptions C06_motion_in_space_closed_form.
 Redirect "C06_orbital_closed_form.assumptions" Print Assumptions C06_orbital_closed_form.
 Redirect "C06_orbital_zero_branch.assumptions" Print Assumptions C06_orbital_zero_branch.
+Redirect "C06_equ_there_and_back.assumptions" Print Assumptions C06_equ_there_and_back.
+Redirect "C06_ecl_there_and_back.assumptions" Print Assumptions C06_ecl_there_and_back.
